@@ -765,4 +765,14 @@ theorem refTail_stream (cfg : LexCfg) (lookup : Int → RefLookup) (s2 : IStream
   · split <;> exact ⟨_, rfl⟩
 
 
+theorem extractInt32_of_scan_hi (l : List Byte) (c : Byte) (t : List Byte) (res : IntResult) (l' r' : List Byte)
+    (hc : isSpace c = false) (hs : scanInt longMin longMax l (c :: t) = (res, l', r')) (h2 : res.value > intMax) :
+    IStream.extractInt32 { left := l, right := c :: t, eof := false, fail := false, bad := false, skipws := true } =
+      (some intMax, { left := l', right := r', eof := r'.isEmpty, fail := true, bad := false, skipws := true }) := by
+  have h1 : ¬ res.value < intMin := by
+    have : intMin ≤ intMax := by decide
+    omega
+  simp [IStream.extractInt32, IStream.sentry, IStream.good, dropSpaces_nonspace _ _ _ hc, hs, h1, h2]
+
+
 end StepModel.P21.Lemmas
